@@ -16,6 +16,10 @@ var c02Selectors = []string{"prev", "old", "unknown", "empty", "last"}
 
 var c02ZombieSites = []string{"GetCurrentInvokeID", "registrationServiceImpl).GetRuntime", "Runtime).InvocationResponse", "Runtime).InvocationErrorResponse", "Server).SendResponse", "Server).SendErrorResponse", "setRuntimeState", "Runtime).ResponseSent", "LoadResponseSender", "LoadInteropServer"}
 
+// lock sites on the interop server's failure path (FastInvoke's goroutine) before and at the submission of the
+// default error response
+var c02PlatformSites = []string{"getCachedInitErrorResponse<lambda/rapidcore.(*Server).FastInvoke.func1", "GetCurrentInvokeID<lambda/rapidcore.(*Server).trySendDefaultErrorResponse", "Server).SendErrorResponse<lambda/rapidcore.(*Server).trySendDefaultErrorResponse", "setRuntimeState<lambda/rapidcore.(*Server).SendErrorResponse<lambda/rapidcore.(*Server).trySendDefaultErrorResponse"}
+
 func scenC02(r *Run, job *Job) {
 	t := r.T
 	profile := job.Profile
@@ -43,8 +47,18 @@ func scenC02(r *Run, job *Job) {
 		r.MaxHoldTime = 60 * time.Second // content-based oracle: long holds are fine
 		r.AddHold(zombieSite, 1+t.Draw(2)+2*zombieAt, 3+t.Draw(25))
 	}
+	if profile == "platform" {
+		// the platform's own submission for a failed invocation (the default error response sent by the interop
+		// server's failure path) is the delayed one: the runtime exits, the goroutine that reports the failure to the
+		// caller is descheduled - possibly across the timeout reset and into later invocations
+		modes[t.Draw(nInv-1)] = "exit"
+		zombieSite = c02PlatformSites[t.Draw(len(c02PlatformSites))]
+		r.MaxHoldTime = 60 * time.Second
+		r.AddHold(zombieSite, 1+t.Draw(2), 3+t.Draw(25))
+	}
 	w := r.NewWorld(WorldCfg{TimeoutSec: timeoutSec, ExtFiles: ExtFiles(exts)}, job.Seed)
 	e := w.NewEngine()
+	e.HoldAcrossTimers = profile == "platform"
 	e.Bound = time.Duration(nInv*(timeoutSec+8)+20) * time.Second
 	// adversarial extras drawn up front so that they are part of the tape header
 	type extra struct{ pre, post []Op }
@@ -96,7 +110,7 @@ func scenC02(r *Run, job *Job) {
 				}
 				return []Op{{Kind: kind, Arg: "cur", N: 1, Body: []byte(fmt.Sprintf("ZOMBIE-%d", inv.N))}, {Kind: "stop"}}, nil
 			}
-			if profile == "zombie" {
+			if profile == "zombie" || profile == "platform" {
 				return nil, nil
 			}
 			x := extras[inv.N-1]
@@ -185,6 +199,12 @@ func scenC02(r *Run, job *Job) {
 			r.Check(st == 200 && bytes.Equal(body, timeoutBody), "C02.effect-on-caller", "invocation %d (stall): %d %s", inv.N, st, summarize(body))
 		case "exit":
 			eb, ok := ParseErr(body)
+			if profile == "platform" && r.holdEverFired() {
+				// the failure report was delayed: the caller gets it late, or the timeout outcome if it came too late
+				r.Check(st >= 500 && ok && eb.ErrorType == "Runtime.ExitError" || st == 200 && bytes.Equal(body, timeoutBody), "C02.effect-on-caller", "invocation %d (exit, failure report delayed): %d %s", inv.N, st, summarize(body))
+				r.NonTriv = true
+				break
+			}
 			r.Check(st >= 500 && ok && eb.ErrorType == "Runtime.ExitError", "C02.effect-on-caller", "invocation %d (exit): %d %s", inv.N, st, summarize(body))
 		case "zombie":
 			// the runtime died while (or right after) submitting: either its response got through or the invocation failed
